@@ -163,6 +163,7 @@ class FunctionVerifier:
             self._soft_ids, self.soft_mode = set(), False
             self._fresh_ids, self._entry_ids, self._id_keep = set(), set(), []
             self._owner_tag, self._entry_term_cache, self._binder_cache, self._lkind_tag = {}, {}, {}, {}
+            self._revealed = {}
             self.paths += 1
             if self.paths > self.max_paths:
                 raise VCError(f"{self.label}: more than {self.max_paths} paths")
@@ -276,13 +277,42 @@ class FunctionVerifier:
             self._id_keep.append(cond)
         self.pc.append(cond)
 
+    def split_goal(self, g):
+        """And(a, b) -> [a, b];  Or(x, And(a, b)) -> [Or(x, a), Or(x, b)]  (one query per conjunct)"""
+        if z3.is_and(g):
+            out = []
+            for c in g.children():
+                out.extend(self.split_goal(c))
+            return out
+        if z3.is_or(g):
+            kids = g.children()
+            parts = [self.split_goal(c) for c in kids]
+            multi = [i for i, p in enumerate(parts) if len(p) > 1]
+            if len(multi) == 1:
+                i = multi[0]
+                return [z3.Or(*(kids[:i] + [c] + kids[i + 1:])) for c in parts[i]]
+        if z3.is_implies(g):
+            rhs = self.split_goal(g.arg(1))
+            if len(rhs) > 1:
+                return [z3.Implies(g.arg(0), c) for c in rhs]
+        return [g]
+
     def oblige(self, goal, kind, label, where=""):
+        parts = self.split_goal(goal)
+        if len(parts) > 1:
+            for i, p in enumerate(parts):
+                self.oblige1(p, kind, f"{label}/{i}", where)
+            return
+        self.oblige1(goal, kind, label, where)
+
+    def oblige1(self, goal, kind, label, where=""):
         goal_s = z3.simplify(goal)
         trivial = z3.is_true(goal_s)
-        key = (kind, label, goal.sexpr(), tuple(c.sexpr() for c in self.pc) if not trivial else ())
-        h = hash(key)
-        if h not in self._seen:
-            self._seen.add(h)
+        # the same obligation is met again when a later path replays this prefix of decisions: execution is
+        # deterministic, so (label, decisions so far, position) identifies it
+        key = (kind, label, tuple(v for v, _a in self.trace), len(self.pc))
+        if key not in self._seen:
+            self._seen.add(key)
             name = f"{self.label}#{kind}.{label}@p{self.paths}"
             ob = Obligation(name, kind, [] if trivial else list(self.pc), goal, where, self.label, self.paths)
             ob.trivial = trivial
@@ -323,6 +353,7 @@ class FunctionVerifier:
                 self._entry_ids.add(v.t.get_id())
                 self._id_keep.append(v.t)
             self.assume_wellformed(v, heap)
+        self.assume(birth(NOWHERE) == -1)          # every real object has birth >= 0
         self.pre_env = dict(env)
         self.pre_heap = heap.copy()
         # precondition
@@ -356,6 +387,7 @@ class FunctionVerifier:
         self._soft_ids, self.soft_mode = set(), False
         self._fresh_ids, self._entry_ids, self._id_keep = set(), set(), []
         self._owner_tag, self._entry_term_cache, self._binder_cache, self._lkind_tag = {}, {}, {}, {}
+        self._revealed = {}
         self.paths += 1
         heap = Heap()
         self.heap = heap
@@ -380,7 +412,7 @@ class FunctionVerifier:
             self.assume(z3.Or(*[v.t == m for m in ms]))
         if k in ("ref", "list"):
             nullable = False
-            self.assume(birth(v.t) < heap.now)
+            self.assume(z3.And(birth(v.t) >= 0, birth(v.t) < heap.now))
             self.assume(v.t != NULL)
             if k == "ref" and v.ty[1] is not None and not v.exact and v.ty[1] in self.prog.classes:
                 self.assume(self.subclass_cond(v.t, v.ty[1]))
@@ -808,14 +840,23 @@ class FunctionVerifier:
 
     # ------------------------------------------------------------ heap access
     def load_field(self, obj, attr, heap, node=None):
+        pinned = obj.aux if isinstance(obj.aux, Heap) else None
+        if pinned is not None:
+            heap = pinned
+        v = self._load_field(obj, attr, heap, node)
+        if pinned is not None and v.kind() in ("ref", "list"):
+            v = V(v.ty, v.t, aux=pinned, exact=v.exact)
+        return v
+
+    def _load_field(self, obj, attr, heap, node=None):
         cname = obj.ty[1]
         fkey, fty = self.world.field_key(cname, attr, self.cur_class())
         a = heap.get(fkey, sort_of(fty))
-        t = self.sel(a, obj.t)
+        t = self.sel(a, obj.t, fkey)
         k = fty if isinstance(fty, str) else fty[0]
         if k == "opt":
             an = heap.get(fkey + "?", BoolS)
-            return mk_opt(self.sel(an, obj.t), t, fty[1])
+            return mk_opt(self.sel(an, obj.t, fkey + "?"), t, fty[1])
         v = V(fty, t)
         if k == "enum":
             ms = self.prog.classes[fty[1]].enum_members.values()
@@ -823,7 +864,7 @@ class FunctionVerifier:
         if k in ("ref", "list"):
             nullable = self.world.field_nullable(fkey)
             # the entry heap is closed: what it references existed at entry
-            facts = [birth(t) < (self.pre_heap.now if self.is_entry_term(t) else heap.now)]
+            facts = [birth(t) >= 0, birth(t) < (self.pre_heap.now if self.is_entry_term(t) else heap.now)]
             if k == "ref" and fty[1] in self.prog.classes:
                 facts.append(self.subclass_cond(t, fty[1]))
             if k == "list":
@@ -848,7 +889,7 @@ class FunctionVerifier:
     def list_len(self, l, heap):
         if isinstance(l.aux, Heap):
             heap = l.aux
-        return self.sel(heap.get("LLen", IntS), l.t)
+        return self.sel(heap.get("LLen", IntS), l.t, "LLen")
 
     def set_list_len(self, l, n):
         a = self.heap.get("LLen", IntS)
@@ -859,7 +900,7 @@ class FunctionVerifier:
             heap = l.aux
         ety = l.ty[1]
         key = elem_array_key(ety)
-        return z3.simplify(self.sel(heap.get(key, z3.ArraySort(IntS, sort_of(ety))), l.t))
+        return z3.simplify(self.sel(heap.get(key, z3.ArraySort(IntS, sort_of(ety))), l.t, key))
 
     def set_list_arr(self, l, arr):
         ety = l.ty[1]
@@ -868,13 +909,21 @@ class FunctionVerifier:
         self.heap.set(key, z3.Store(a, l.t, arr))
 
     def list_get(self, l, i, heap, assume_wf=True):
+        v = self._list_get(l, i, heap, assume_wf)
+        if isinstance(l.aux, Heap) and v.kind() in ("ref", "list"):
+            v = V(v.ty, v.t, aux=l.aux, exact=v.exact)
+        return v
+
+    def _list_get(self, l, i, heap, assume_wf=True):
+        if isinstance(l.aux, Heap):
+            heap = l.aux
         ety = l.ty[1]
         t = z3.Select(self.list_arr(l, heap), i)
         v = V(ety, t)
         k = v.kind()
         if assume_wf and k in ("ref", "list"):
             n = self.list_len(l, heap)
-            facts = [birth(t) < (self.pre_heap.now if self.is_entry_term(t) else heap.now)]
+            facts = [birth(t) >= 0, birth(t) < (self.pre_heap.now if self.is_entry_term(t) else heap.now)]
             nullable_elem = isinstance(ety, tuple) and len(ety) > 2
             if k == "ref" and ety[1] in self.prog.classes:
                 facts.append(self.subclass_cond(t, ety[1]))
@@ -899,17 +948,17 @@ class FunctionVerifier:
         if lkind_of(ety) is not None:
             self.assume(lkind(r) == lkind_of(ety))
             self._lkind_tag[r.get_id()] = lkind_of(ety)
-        self.assume(z3.Select(self.heap.get("LLen", IntS), r) == n)
+        self.reveal("LLen", IntS, r, z3.simplify(n) if z3.is_expr(n) else z3.IntVal(n))
         if arr is not None and ety != "?":
             key = elem_array_key(ety)
-            self.assume(z3.Select(self.heap.get(key, z3.ArraySort(IntS, sort_of(ety))), r) == arr)
+            self.reveal(key, z3.ArraySort(IntS, sort_of(ety)), r, arr)
         return l
 
     def alloc(self, name="obj", cls=None):
         r = self.fresh_ref_term(name)
         self._fresh_ids.add(r.get_id())
         self._id_keep.append(r)
-        self.assume(birth(r) == self.heap.now)
+        self.assume(z3.And(birth(r) == self.heap.now, birth(r) >= 0))
         self.assume(r != NULL)
         nn = z3.Int(f"now!{next(self.ctr)}")
         self.assume(nn == self.heap.now + 1)
@@ -995,8 +1044,12 @@ class FunctionVerifier:
         self._id_keep.append(t)
         return ok
 
-    def sel(self, arr, r):
-        """Select(arr, r) with stores at provably different references peeled off"""
+    def sel(self, arr, r, key=None):
+        """Select(arr, r) with stores at provably different references peeled off; a slot revealed at allocation
+        (and not written since) is returned as the very term it was revealed with"""
+        if z3.is_app(arr) and arr.decl().kind() == z3.Z3_OP_ITE:
+            a, b = self.sel(arr.arg(1), r, key), self.sel(arr.arg(2), r, key)
+            return a if a.eq(b) else z3.If(arr.arg(0), a, b)
         while z3.is_app(arr) and arr.decl().kind() == z3.Z3_OP_STORE:
             idx = arr.arg(1)
             if idx.get_id() == r.get_id():
@@ -1004,8 +1057,23 @@ class FunctionVerifier:
             if self.known_distinct(idx, r):
                 arr = arr.arg(0)
             else:
-                break
+                return z3.Select(arr, r)
+        if key is not None:
+            v = self._revealed.get((key, r.get_id()))
+            if v is not None and v[0] == arr.get_id():
+                return v[1]
         return z3.Select(arr, r)
+
+    def reveal(self, key, sort, r, value):
+        """fresh reference r: its slot in heap array `key` holds `value` (see new_list)"""
+        arr = self.heap.get(key, sort)
+        self.assume(z3.Select(arr, r) == value)
+        base = arr
+        while z3.is_app(base) and base.decl().kind() == z3.Z3_OP_STORE:
+            base = base.arg(0)
+        self._revealed[(key, r.get_id())] = (base.get_id(), value)
+        self._id_keep.append(base)
+        self._id_keep.append(value)
 
     def checked_index(self, i, n, node):
         """Python index semantics on a sequence of length n; IndexError when out of range."""
@@ -1178,7 +1246,11 @@ class FunctionVerifier:
                     old = self.world.array_const(key)
                     self.heap.arrays[key] = old
                 fv = z3.Const(f"hv_{key}!{next(self.ctr)}", old.sort().range())
-                self.heap.set(key, z3.Store(old, r, fv))
+                if z3.is_app(r) and r.decl().kind() == z3.Z3_OP_ITE and r.arg(2).eq(NOWHERE):
+                    # conditional frame: nothing is touched when the condition is false
+                    self.heap.set(key, z3.If(r.arg(0), z3.Store(old, r.arg(1), fv), old))
+                else:
+                    self.heap.set(key, z3.Store(old, r, fv))
                 if key == "LLen":
                     self.assume(fv >= 0)
 
@@ -1497,12 +1569,16 @@ class FunctionVerifier:
         if ctx.spec and isinstance(e.value, ast.Name) and e.value.id == "old" and "old" not in ctx.env:
             if ctx.old is None:
                 raise VCError("old used outside a postcondition")
-            return self.eval(ast.Name(id=e.attr, ctx=ast.Load()), ctx.old)
+            v = self.eval(ast.Name(id=e.attr, ctx=ast.Load()), ctx.old)
+            if v.kind() in ("list", "ref"):
+                v = V(v.ty, v.t, aux=ctx.old.heap, exact=v.exact)
+            return v
         if ctx.spec and self._rooted_at_old(e) and "old" not in ctx.env:
             inner = self._strip_old(e)
             v = self.eval(inner, ctx.old)
-            if v.kind() == "list":
-                v = V(v.ty, v.t, aux=ctx.old.heap)
+            if v.kind() in ("list", "ref"):
+                # snapshot semantics: everything read through an old value is read in the old heap
+                v = V(v.ty, v.t, aux=ctx.old.heap, exact=v.exact)
             return v
         obj = self.eval(e.value, ctx)
         k = obj.kind()
@@ -1700,7 +1776,7 @@ class FunctionVerifier:
         post = Ctx(cenv, self.heap, spec=True, old=old_ctx, result=res)
         self.soft_mode = True
         try:
-            for label, clause in c.ensures_clauses():
+            for label, clause in c.ensures_clauses(caller=True):
                 self.assume(self.eval_spec_bool(clause, post))
         finally:
             self.soft_mode = False
@@ -1710,7 +1786,7 @@ class FunctionVerifier:
         k = res.kind()
         if k in ("ref", "list"):
             nullable = False
-            self.assume(z3.And(res.t != NULL, birth(res.t) < self.heap.now))
+            self.assume(z3.And(res.t != NULL, birth(res.t) >= 0, birth(res.t) < self.heap.now))
             if k == "ref" and res.ty[1] in self.prog.classes and not res.exact:
                 self.assume(self.subclass_cond(res.t, res.ty[1]))
             if k == "list":
